@@ -372,6 +372,18 @@ where
     pub(super) recv_closing: Option<StreamId>,
 }
 
+impl<C, B> Drop for Connection<C, B>
+where
+    C: quic::Connection<B>,
+    B: Buf,
+{
+    fn drop(&mut self) {
+        // An error which a request stream has raised, and which this connection has not been
+        // polled for since, closes the connection with its own code
+        let _ = self.inner.check_connection_error();
+    }
+}
+
 impl<C, B> ConnectionState for Connection<C, B>
 where
     C: quic::Connection<B>,
